@@ -61,15 +61,27 @@ F_subq == << Sub(Mk(1, LA2, "p", FALSE, <<aCp, col(2), aRp, col(1)>>, <<>>, 0, 0
 F_subq3 == << Sub(Mk(1, LA2, "p", FALSE, <<aCp, col(3)>>, <<>>, 0, 0, TRUE, FALSE, FALSE), <<3, 2>>),
               Sub(Mk(2, LB2, "p", TRUE, <<>>, <<aCp>>, 0, 0, TRUE, FALSE, FALSE), <<2, 3>>),
               Sub(Mk(3, LA2, "e", FALSE, <<aCp, Fn("first", 2, 1)>>, <<>>, 0, 0, TRUE, FALSE, FALSE), <<1, 2>>) >>
+(* DELIVERY: two threads of ONE connection hand their statements to the connection's execute() shortcut; each is
+   descheduled after execute() has returned and between its fetches (fetchall / fetchone, fetchall) *)
+F_deliver == << Dl(Mk(1, LA2, "e", FALSE, <<col(2), aRp, col(3)>>, <<>>, 0, 0, TRUE, FALSE, FALSE), "conn", <<0>>),
+                Dl(Mk(1, LA2, "p", FALSE, <<col(2)>>, <<aHi>>, 0, 121, FALSE, FALSE, FALSE), "conn", <<1, 0>>) >>
+(* the same statement text with different parameters, both through the shortcut of one connection *)
+F_deliverp == << Dl(Mk(1, LA, "e", FALSE, <<col(2), col(3)>>, <<aLo, aHi>>, 11, 12, FALSE, FALSE, FALSE), "conn", <<0>>),
+                 Dl(Mk(1, LA, "e", FALSE, <<col(2), col(3)>>, <<aLo, aHi>>, 12, 13, FALSE, FALSE, FALSE), "conn", <<1, 0>>) >>
+(* three threads: two through the shortcut of one connection, the third with a cursor of its own on that connection *)
+F_deliver3 == << Dl(Mk(1, LA2, "p", FALSE, <<col(3), col(2)>>, <<>>, 0, 0, TRUE, FALSE, FALSE), "conn", <<2, 0>>),
+                 Dl(Mk(1, LA2, "e", FALSE, <<col(2)>>, <<aLo>>, 12, 0, FALSE, FALSE, FALSE), "conn", <<0>>),
+                 Dl(Mk(1, LA2, "p", FALSE, <<col(1)>>, <<>>, 0, 0, TRUE, FALSE, FALSE), "cursor", <<1, 0>>) >>
 FamilyJobs(name) ==
     CASE name = "params" -> F_params [] name = "star" -> F_star [] name = "rows" -> F_rows
       [] name = "tables" -> F_tables [] name = "mix3" -> F_mix3 [] name = "sep3" -> F_sep3
       [] name = "parse" -> F_parse [] name = "parse3" -> F_parse3
       [] name = "typed" -> F_typed [] name = "typed3" -> F_typed3
       [] name = "func" -> F_func [] name = "funcw" -> F_funcw [] name = "subq" -> F_subq [] name = "subq3" -> F_subq3
+      [] name = "deliver" -> F_deliver [] name = "deliverp" -> F_deliverp [] name = "deliver3" -> F_deliver3
 
 Families == IF Family = "all" THEN {"params", "star", "rows", "tables", "mix3", "sep3", "parse", "parse3", "typed", "typed3",
-                                   "func", "funcw", "subq", "subq3"}
+                                   "func", "funcw", "subq", "subq3", "deliver", "deliverp", "deliver3"}
             ELSE {Family}
 JobsOf(f) == [t \in Threads |-> IF t <= Len(FamilyJobs(f)) THEN FamilyJobs(f)[t] ELSE Job0]
 FamilyOf(js) == CHOOSE f \in Families : JobsOf(f) = js
@@ -80,7 +92,9 @@ SNext ==
         /\ Step(t)
         /\ hist' = IF turn = 0 THEN Append(hist, t) ELSE hist
         /\ turn' = IF YieldStep(t) \/ pc'[t].ph = "done" THEN 0 ELSE t
-SEmit == AllDone => PrintT(ToJson([family |-> FamilyOf(job), sched |-> hist, out |-> [t \in Threads |-> out[t]]]))
+(* out: the rows every thread RECEIVES (= the rows its statement emitted: OwnResults), desc: the descriptions it reads *)
+SEmit == AllDone => PrintT(ToJson([family |-> FamilyOf(job), sched |-> hist, out |-> [t \in Threads |-> recv[t].rows],
+                                   desc |-> [t \in Threads |-> recv[t].desc]]))
 SEmitJobs == (hist = <<>> /\ turn = 0) =>
     PrintT(ToJson([family |-> FamilyOf(job), jobs |-> [t \in 1..Len(FamilyJobs(FamilyOf(job))) |-> job[t]]]))
 =============================================================================
